@@ -16,7 +16,7 @@ func init() { register("C03", c03) }
 const queueStoreIface = "persistence/queue.Store"
 
 func c03(c *core.Ctx) {
-	c.Explain("C03 (outbound QoS 1/2 window): decided statically — R1 every acknowledgement handler releases exactly the packet id it removed from the queue (release only after / together with Remove, id taken from the handled packet), and an expired in-flight element releases its own id; R2 ids obtained from the limiter flow into the queue read and the unused remainder is returned on every non-error path; an id is consumed only for QoS>0; R3 on reconnect every kind of in-flight element (every implementer of queue.MessageWithID) is re-marked in the limiter with its own id before it is re-sent, a replayed PUBLISH gets DUP=1; R4 the limiter blocks while used >= limit (not >), grants min(request, limit-used), decrements only for ids that were marked, and never increments the id cursor past 65535 (no id 0); R5 the window is min(max_inflight, Receive Maximum); R6 in-flight replay completes before the first new id is requested.")
+	c.Explain("C03 (outbound QoS 1/2 window): decided statically — R1 every acknowledgement handler releases exactly the packet id it removed from the queue (release only after / together with Remove, id taken from the handled packet), and an expired in-flight element releases its own id; R2 ids obtained from the limiter flow into the queue read and the unused remainder is returned on every non-error path; an id is consumed only for QoS>0; R3 on reconnect every kind of in-flight element (every implementer of queue.MessageWithID) is re-marked in the limiter with its own id before it is re-sent, a replayed PUBLISH gets DUP=1; R4 the limiter blocks while used >= limit (not >), grants min(request, limit-used), decrements only for ids that were marked, and never increments the id cursor past 65535 (no id 0); R5 the window is min(max_inflight, Receive Maximum); R6 in-flight replay completes before the first new id is requested. Added in the second round: Remove / Replace of the memory queue compare packet ids for equality only.")
 	c.NotDecided("the numeric invariant 'ids pairwise distinct and used <= window at every instant' over all histories; redelivery after every reconnect")
 	p := c.P
 	fl := ssax.NewFlow()
